@@ -7,11 +7,12 @@ from .mirutil import (success_edges, gate_functions, root_place, place_is_field,
 class Gate:
     """A gate: predicate over call terminators + derived gate functions."""
 
-    def __init__(self, prog, name, pred):
+    def __init__(self, prog, name, pred, fold=None):
         self.prog = prog
         self.name = name
         self.pred = pred
-        self.funcs = gate_functions(prog, pred)
+        self.fold = fold
+        self.funcs = gate_functions(prog, pred, dead_edges_of=(lambda b: folded_dead_edges(b, fold)) if fold else None)
         self._oc = {}
 
     def is_gate_call(self, body, term):
